@@ -1927,17 +1927,20 @@ class Model:
     # Datasets
     ##########################################################################
 
+    @_invalidate_cache
     def add_data(self, name: str, data: pd.Series | pd.DataFrame) -> Self:
         """Add named data set to model."""
         self._insert_id(name=name, ctx="data")
         self._data[name] = data
         return self
 
+    @_invalidate_cache
     def update_data(self, name: str, data: pd.Series | pd.DataFrame) -> Self:
         """Update named data set."""
         self._data[name] = data
         return self
 
+    @_invalidate_cache
     def remove_data(self, name: str) -> Self:
         """Remove data set from model."""
         self._remove_id(name=name)
